@@ -1,6 +1,7 @@
 """./check <property> [--tier quick|thorough] [--replay <file>]"""
 import os
 import sys
+sys.set_int_max_str_digits(0)
 import json
 import argparse
 import importlib
